@@ -519,7 +519,7 @@ def oracleC18 (p : Parsed) (fs : List (String × String)) : Option String :=
 
 /-- C03 for a transcoded RPC: the client's response is valid in the client's own protocol and has
     exactly one terminal disposition in the protocol's place. -/
-def oracleC03 (p : Parsed) (fs : List (String × String)) : Option String :=
+def oracleC03 (p : Parsed) (fs : List (String × String)) (clean : Bool := false) : Option String :=
   match branchOf p with
   | .transcoded o =>
     let cb := fieldOf fs "cb"
@@ -567,7 +567,23 @@ def oracleC03 (p : Parsed) (fs : List (String × String)) : Option String :=
         | .connectStream => s "application/connect+" ++ o.ccodec
         | _ => if code == 0 then s "application/" ++ o.ccodec else s "application/json"
       if ct != wantCT then some ("content-type is not the client protocol's: " ++ toHex ct) else
-      if endS.startsWith "hdr:" && cb != "-" then some "message data next to a trailers-only end" else none
+      if endS.startsWith "hdr:" && cb != "-" then some "message data next to a trailers-only end" else
+      -- with a well-behaved backend: a frame flagged compressed must inflate under the compression the response declares
+      let encKey : Bytes := match o.cform with
+        | .grpc | .grpcWeb => s "Grpc-Encoding"
+        | .connectStream => s "Connect-Content-Encoding"
+        | _ => s "Content-Encoding"
+      let enc := ch.get encKey
+      let declared : Option Bytes := if enc.isEmpty || enc == s "identity" then none else some enc
+      let lying : Bool := match declared with
+        | some z =>
+          clean && (cb != "-") && (cb.splitOn ",").any fun t => match t.splitOn ":" with
+            | ["F1", h] => match fromHex h with
+              | some b => !b.isEmpty && (fakeWorld.decompress z b).isNone
+              | none => false
+            | _ => false
+        | none => false
+      if lying then some "a response frame is flagged compressed but its bytes are not compressed" else none
   | _ => none
 
 /-- C13: when no conversion applies (or no endpoint matches and an unknown-endpoint handler
@@ -745,7 +761,7 @@ def oracleC04 (p : Parsed) (ex : Expect) (fs : List (String × String)) : Option
 /-- C02: what the service handler receives for a transcoded request is a valid request of one of
     the service's protocols, with one of its codecs and compressions; acceptable parts of the client's
     triple are kept; envelopes are legal and consistent with the declared compression. -/
-def oracleC02 (p : Parsed) (fs : List (String × String)) : Option String :=
+def oracleC02 (p : Parsed) (fs : List (String × String)) (clean : Bool := false) : Option String :=
   match branchOf p with
   | .transcoded o =>
     if fieldOf fs "disp" != "svc" then none else
@@ -810,7 +826,14 @@ def oracleC02 (p : Parsed) (fs : List (String × String)) : Option String :=
             else if comp.isNone && frames.any (fun f => f.1 == 1) &&
                 -- (a client stream that itself flags frames without declaring a compression is forwarded as it is)
                 !(o.cReqComp.isNone && o.clientEnveloper.isSome) then some "compressed flag without declared compression"
-            else none
+            else
+              -- from a well-behaved client: what is flagged compressed must inflate under the declared compression
+              let lying := match comp with
+                | some z => clean && frames.any fun f => f.1 == 1 && match f.2 with
+                    | .raw b => !b.isEmpty && (fakeWorld.decompress z b).isNone
+                    | .tok _ => false
+                | none => false
+              if lying then some "a message is flagged compressed for the backend but its bytes are not compressed" else none
   | _ => none
 
 /-- The request message value the backend was handed (one message), from its body or, for a
@@ -1146,9 +1169,9 @@ def specE2E (prop : String) (hexJson : String) (res : List String) : String :=
       match prop with
       | "C11" => some (oracleC11 p fs)
       | "C18" => some (oracleC18 p fs)
-      | "C03" => some (oracleC03 p fs)
+      | "C03" => some (oracleC03 p fs (parseExpect p.json).isSome)
       | "C13" => some (oracleC13 p res)
-      | "C02" => some (oracleC02 p fs)
+      | "C02" => some (oracleC02 p fs (parseExpect p.json).isSome)
       | "C19" => some (oracleC19 p fs)
       | "C09" => some (oracleC09 p fs)
       | "C10" => (parseExpect p.json).map fun ex => oracleC10 p ex fs
